@@ -18,7 +18,6 @@ LEVEL = "model_checking"
 
 NEGS = ["MoveTooFar", "BoundaryMidWord", "IsLigNotPropagated", "DropOriginal", "ClassOfOp7"]
 NEGS_COMPILE = ["IgnoreBlocked", "ForgetParents"]
-CORPUS = "/work/c05/repo/crates/tfm/corpus"
 FINDING_PHANTOM = "redirect-phantom-ligature"
 
 _SKIP_RE = re.compile(r'^<<"SKIP", (\d+), (\d+)>>', re.M)
@@ -119,14 +118,17 @@ def stats(batch):
 
 def describe(e, v):
     p = e["p"]
+    if len(p["ins"]) <= 12:
+        prog = f"lig/kern program {json.dumps(p['ins'])} ep={p['ep']} lbe={p['lbe']} rbc={p['rbc']}"
+    else:
+        prog = f"lig/kern program of {e.get('tag')} ({len(p['ins'])} instructions, lbe={p['lbe']} rbc={p['rbc']})"
     if v["key"].startswith("loop") or v["r"] == 0:
-        return (f"lig/kern program {json.dumps(p['ins'])} ep={p['ep']} lbe={p['lbe']} rbc={p['rbc']}: "
-                f"{v['key']}: compile reported loops at {e['errs']}, pairs with undefined f(x,y): {v.get('want')}")
+        return (f"{prog}: {v['key']}: compile reported loops at {e['errs']}, "
+                f"pairs with undefined f(x,y): {v.get('want')}; {e.get('panic', '')}")
     r = e["runs"][v["r"] - 1]
     got = r.get("out", r.get("panic"))
-    return (f"lig/kern program {json.dumps(p['ins'])} ep={p['ep']} lbe={p['lbe']} rbc={p['rbc']} on word {r['w']} "
-            f"(no_left_boundary={r['nl']}, right_boundary_override={r['ro']}): {v['key']}: got {json.dumps(got)}, "
-            f"TeX's main loop gives {json.dumps(v.get('want'))}")
+    return (f"{prog} on word {r['w']} (no_left_boundary={r['nl']}, right_boundary_override={r['ro']}): {v['key']}: "
+            f"got {json.dumps(got)}, TeX's main loop gives {json.dumps(v.get('want'))}")
 
 
 def judge_batches(ctx, batches):
@@ -194,10 +196,10 @@ def run(ctx):
     else:
         plan = [
             ("small22", ["c05-small", "letters=2", "rules=2", "maxlen=4"]),
-            ("small32", ["c05-small", "letters=3", "rules=2", "maxlen=3", "stride=4", f"offset={seed % 4}"]),
-            ("small23", ["c05-small", "letters=2", "rules=3", "maxlen=3", "stride=8", f"offset={seed % 8}"]),
-            ("random", ["c05-random", f"seed={seed}", "n=30000", "words=12"]),
-            ("corpus", ["c05-corpus", f"dir={corpus_dir()}", f"seed={seed}", "pairs=500", "walks=500", "batch=25"]),
+            ("small32", ["c05-small", "letters=3", "rules=2", "maxlen=3", "stride=8", f"offset={seed % 8}"]),
+            ("small23", ["c05-small", "letters=2", "rules=3", "maxlen=3", "stride=16", f"offset={seed % 16}"]),
+            ("random", ["c05-random", f"seed={seed}", "n=20000", "words=12"]),
+            ("corpus", ["c05-corpus", f"dir={corpus_dir()}", f"seed={seed}", "pairs=500", "walks=500", "batch=100"]),
             ("redirect", ["c05-redirect", f"seed={seed}", "n=1500"]),
         ]
     for name, cmd in plan:
@@ -207,37 +209,36 @@ def run(ctx):
 
     # ---------------- model step + binding, run side by side -------------------------------
     jobs = []
-    mcw = 4 if q else 10
+    mcw = 4
 
-    def model(name, module, cfg, actions, workers):
-        return lambda: tlc_model(ctx, name, module, cfg, expect_actions=actions, workers=workers, xmx="6g")
+    def model(name, module, cfg, actions, workers, xmx="6g"):
+        return lambda: tlc_model(ctx, name, module, cfg, expect_actions=actions, workers=workers, xmx=xmx)
 
     def neg(module, cfg, what):
         return lambda: tlc_expect_refuted(module, cfg, what, workers=2)
 
-    jobs.append(("mc", model("LigKern.refinement", "MC_LigKern", "MC_LigKern.cfg", ["StepCursor", "StopDiverging"], mcw)))
-    jobs.append(("mc-compile", model("LigKernCompile.confluence", "LigKernCompile", "MC_LigKernCompile.cfg",
-                                     ["Park", "Continue", "Complete"], 2 if q else 6)))
+    both = ["StepCursor", "StopDiverging"]
     if not q:
+        # the large spaces first: they are the critical path of the thorough tier
+        jobs.append(("mc-3letters", model("LigKern.refinement.3letters", "MC_LigKern", "MC_LigKern_thorough.cfg", both, 8, "10g")))
+        jobs.append(("mc-3rules", model("LigKern.refinement.3rules", "MC_LigKern", "MC_LigKern_rules3.cfg", both, 8, "10g")))
         jobs.append(("mc-full", model("LigKern.refinement.divergent-runs-to-bound", "MC_LigKern", "MC_LigKern_full.cfg",
                                       ["StepCursor"], mcw)))
+    jobs.append(("mc", model("LigKern.refinement", "MC_LigKern", "MC_LigKern.cfg", both, mcw)))
+    jobs.append(("mc-compile", model("LigKernCompile.confluence", "LigKernCompile",
+                                     "MC_LigKernCompile.cfg" if q else "MC_LigKernCompile_thorough.cfg",
+                                     ["Park", "Continue", "Complete"], 2 if q else 4)))
     for b in NEGS:
         jobs.append((f"neg:{b}", neg("MC_LigKern", f"NEG_LigKern_{b}.cfg", b)))
     for b in NEGS_COMPILE:
         jobs.append((f"neg:{b}", neg("LigKernCompile", f"NEG_LigKernCompile_{b}.cfg", b)))
-    budget = max(2, NCPU - 2 - mcw)
+    per_chunk = ({"small": 900, "random": 160, "corpus": 90, "redirect": 200} if q else
+                 {"small": 2500, "random": 1500, "corpus": 40, "redirect": 800})
     for b in batches:
-        nev = len(b.lines)
-        parts = max(1, min(budget, nev // (700 if b.name.startswith("small") else 150) + 1))
-        jobs += validation_jobs(ctx, b, parts)
+        size = per_chunk[re.sub(r"\d+$", "", b.name)]
+        jobs += validation_jobs(ctx, b, len(b.lines) // size + 1)
     run_jobs(ctx, jobs, par=max(4, NCPU - 4))
     ctx.cov["parts"]["negative_controls_refuted"] = len(NEGS) + len(NEGS_COMPILE)
-    if not q:
-        # larger spaces, one after the other (each uses most of the machine)
-        tlc_model(ctx, "LigKern.refinement.3letters", "MC_LigKern", "MC_LigKern_thorough.cfg",
-                  expect_actions=["StepCursor", "StopDiverging"], workers=12, xmx="10g")
-        tlc_model(ctx, "LigKern.refinement.3rules", "MC_LigKern", "MC_LigKern_rules3.cfg",
-                  expect_actions=["StepCursor", "StopDiverging"], workers=12, xmx="10g")
 
     # ---------------- verdicts ---------------------------------------------------------------
     for b in batches:
